@@ -290,7 +290,7 @@ class Select(MarkerRelation):
         removed_projection : `bool`
             Whether a `Projection` operation was also stripped.
         """
-        if not self.has_deduplication and not self.has_sort and not self.has_slice:
+        if not self.has_deduplication and not self.has_sort and not self.has_slice and not self.is_compound:
             return self.skip_to, self.has_projection
         else:
             return self, False
